@@ -34,7 +34,7 @@ def _sh(v, d):
 
 
 def random_table(rng, nmodels=None, shared_identities=True, altlocs=True, close_pairs=True, dup_names=True, hetatm=True,
-                 icodes=True, charges=True, null_occ=False, blank_chain=False, nchains=None, nres=None, wide=True, model_numbers=None, serial_start=None):
+                 icodes=True, charges=True, null_occ=False, blank_chain=False, nchains=None, nres=None, wide=True, model_numbers=None, serial_start=None, hetero=False):
     """Residues are contiguous; models (if shared_identities) repeat the same
     residue identities with shifted coordinates, as NMR ensembles do."""
     nmodels = nmodels or rng.choice([1, 1, 1, 2, 3, 5])
@@ -54,6 +54,15 @@ def random_table(rng, nmodels=None, shared_identities=True, altlocs=True, close_
                 num += 1
             used_keys.add((ch, num, icode))
             names = rng.sample(ATOM_NAMES, rng.randint(1, 7))
+            if hetero and template and template[-1]["chain"] == ch and rng.random() < 0.25:
+                # a differently named residue on the SAME chain / number / insertion code as an earlier one of the
+                # chain (micro-heterogeneity, a ligand or water whose numbering restarts inside the polymer's
+                # chain), sharing an atom name with it
+                prev = rng.choice([t for t in template if t["chain"] == ch])
+                if prev["resname"] != resname and not any(t is not prev and (t["chain"], t["resseq"], t["icode"]) == (ch, prev["resseq"], prev["icode"]) for t in template):
+                    num, icode = prev["resseq"], prev["icode"]
+                    shared = prev["atoms"][0]["name"]
+                    names = [shared] + [x for x in names if x != shared]
             atoms = []
             for nm in names:
                 atoms.append({"name": nm, "alt": None, "xyz": [coord(rng, wide) for _ in range(3)], "occ": 1.0})
